@@ -425,6 +425,9 @@ class World:
                         finish(tm)
                     finally:
                         world.in_user -= 1
+            if spec.get("partial"):
+                import functools
+                return functools.partial(acb)
             return acb
 
         def scb(tid: Any) -> None:
@@ -440,6 +443,9 @@ class World:
                     finish(tm)
             finally:
                 world.in_user -= 1
+        if spec.get("partial"):
+            import functools
+            return functools.partial(scb)
         return scb
 
     def cb_probe(self, kind: str, tm: TaskM) -> None:
